@@ -1684,7 +1684,6 @@ template <typename T>
       const null_on_move&)
     noexcept
     {
-      p = nullptr;
       return *this;
     }
 
@@ -1693,7 +1692,6 @@ template <typename T>
       null_on_move&&)
     noexcept
     {
-      p = nullptr;
       return *this;
     }
 
